@@ -342,7 +342,8 @@ func addC19Case(ctx *Ctx, in c19Input) {
 	g := geo.NewGnomonic(geodesic.WGS84)
 	checks := map[string]bool{}
 	detail := map[string]any{}
-	sa1, sa2, sb1, sb2, errB := false, false, false, false, false
+	var az [4]float64
+	errB := false
 	expect := 2
 	if in.Kind == "projection" {
 		x, y, _, rk := g.Forward(in.Lat0, in.Lon0, in.Lat, in.Lon)
@@ -365,7 +366,7 @@ func addC19Case(ctx *Ctx, in c19Input) {
 		}
 	} else {
 		lat, lon, a1, a2, b1, b2 := g.IntersectExt(in.Lat1a, in.Lon1a, in.Lat2a, in.Lon2a, in.Lat1b, in.Lon1b, in.Lat2b, in.Lon2b)
-		sa1, sa2, sb1, sb2 = math.Signbit(a1), math.Signbit(a2), math.Signbit(b1), math.Signbit(b2)
+		az = [4]float64{a1, a2, b1, b2}
 		_, _, err := g.Intersect(in.Lat1a, in.Lon1a, in.Lat2a, in.Lon2a, in.Lat1b, in.Lon1b, in.Lat2b, in.Lon2b)
 		errB = err != nil
 		expect = in.Expect
@@ -398,7 +399,7 @@ func addC19Case(ctx *Ctx, in c19Input) {
 	}
 	b, _ := json.Marshal(in)
 	detail["checks"] = checks
-	ctx.Add(Case{Coq: fmt.Sprintf("(mkCase %s %s %s %s %s %s %s %s)", CoqBool(sa1), CoqBool(sa2), CoqBool(sb1), CoqBool(sb2), CoqBool(errB), CoqNat(expect), zlist(xs), CoqBool(k45)),
+	ctx.Add(Case{Coq: fmt.Sprintf("(mkCase %s %s %s %s %s %s %s %s)", CoqF64(az[0]), CoqF64(az[1]), CoqF64(az[2]), CoqF64(az[3]), CoqBool(errB), CoqNat(expect), zlist(xs), CoqBool(k45)),
 		Input: in, Obs: detail, Key: string(b), Tags: []string{"kind:" + in.Kind, fmt.Sprintf("expect:%d", expect), fmt.Sprintf("sincos45:%v", k45)}})
 }
 
@@ -474,6 +475,21 @@ func runC19(ctx *Ctx) error {
 		if fb < 0 {
 			geodesic.WGS84.Direct(xlat, xlon, brB, -fb*lb, &b1la, &b1lo, nil)
 			geodesic.WGS84.Direct(xlat, xlon, brB, (1-fb)*lb, &b2la, &b2lo, nil)
+		}
+		if !bulge && r.Chance(0.12) {
+			// segment A along a meridian (both end points at the crossing's longitude), northwards or
+			// southwards: its azimuths are exactly 0 or 180
+			deg := la / 111320
+			a1la, a1lo, a2la, a2lo = xlat-fa*deg, xlon, xlat+(1-fa)*deg, xlon
+			if fa > 1 {
+				a1la, a2la = xlat-fa*deg, xlat-(fa-1)*deg
+			}
+			if r.Chance(0.5) {
+				a1la, a2la = a2la, a1la
+			}
+			if math.Abs(a1la) > 85 || math.Abs(a2la) > 85 {
+				continue
+			}
 		}
 		if math.Abs(a1lo-a2lo) > 170 || math.Abs(b1lo-b2lo) > 170 || math.Abs(a1lo-b1lo) > 170 {
 			continue
